@@ -250,7 +250,15 @@ def _str_escape(s: str) -> str:
     return s
 
 def _bytes_escape(b: bytes) -> str:
-    return repr(b)[2:-1]
+    """
+    Encode bytes such that they are correctly represented inside simple quotes.
+    """
+    r = repr(b)
+    body = r[2:-1]
+    if r[1] == '"':
+        # repr() chose double quotes: the value has single quotes (left as is) and no double quote.
+        body = body.replace("'", "\\'")
+    return body
 
 class PyvalColorizer:
     """
